@@ -35,7 +35,7 @@ Section LimClosed.
     - destruct (cget c s); [exact H|]. destruct best; [exact H|].
       destruct (p_active _); cprj; [destruct (aget None p _); exact H | exact H].
     - destruct (cget c s) as [r|]; [|exact H]. destruct (cr_phase r); exact H.
-    - apply add_jobs_lim. exact H.
+    - destruct (g <? c_next s); [|exact H]. apply add_jobs_lim. exact H.
     - cprj. apply Pstep, H.
     - destruct (jget n s) as [j|]; [|exact H]. destruct (_ && _); exact H.
     - destruct (jget n s) as [j|]; [|exact H]. destruct (jr_reported j); [cprj; apply Pstep, H | exact H].
@@ -87,7 +87,7 @@ Section SyncClosed.
     - destruct (cget c s); [exact H|]. destruct best; [exact H|].
       destruct (p_active _); cprj; [destruct (aget None p _); [cprj; apply Pstep, H | exact H] | apply Pstep, H].
     - destruct (cget c s) as [r|]; [|exact H]. destruct (cr_phase r); exact H.
-    - rewrite add_jobs_sync. exact H.
+    - destruct (g <? c_next s); [|exact H]. rewrite add_jobs_sync. exact H.
     - exact H.
     - destruct (jget n s) as [j|]; [|exact H]. destruct (_ && _); exact H.
     - destruct (jget n s) as [j|]; [|exact H]. destruct (jr_reported j); exact H.
